@@ -31,6 +31,10 @@ type Event struct {
 	Pos  token.Pos
 	// Callee is the resolved function of a call event, when known.
 	Callee *ssa.Function
+	// Instr and Conds (bounds events): the indexing/slicing instruction and a
+	// snapshot of the path conditions in force when it executed.
+	Instr ssa.Instruction
+	Conds []*BoolVal
 	// CondIdx is the number of path conditions recorded before the event:
 	// it orders events relative to the path's branch decisions.
 	CondIdx int
@@ -194,6 +198,10 @@ type Engine struct {
 	// which cond holds should be dropped (recorded as a "cutoff" outcome).
 	// Used to keep bounded explorations of parse loops focused.
 	Prune func(cond *BoolVal) bool
+	// TrackBounds records a "bounds" event (index or slice bounds against
+	// the length, with the path conditions then in force) for every slice
+	// indexing and slicing operation.
+	TrackBounds bool
 	// InlineIf, when set, restricts inlining of prism callees to those it
 	// accepts (given the actual arguments); the others become call events.
 	InlineIf func(st *State, fn *ssa.Function, args, bindings []Val) bool
@@ -212,18 +220,18 @@ type Engine struct {
 	// when their bounds are constants (used for the table builders).
 	GenericLoops bool
 
-	steps     int
-	paths     int
-	nextCell  int
-	globals   map[*ssa.Global]*Cell
-	initVals  map[*ssa.Global]Val
-	initDone  map[*ssa.Package]bool
-	opaqueMem map[string]*Cell
+	steps      int
+	paths      int
+	nextCell   int
+	globals    map[*ssa.Global]*Cell
+	initVals   map[*ssa.Global]Val
+	initDone   map[*ssa.Package]bool
+	opaqueMem  map[string]*Cell
 	constCells map[*Cell]Val
 	cellGlobal map[*Cell]*ssa.Global
-	streams   int
-	loopWhy   string
-	inInit    bool
+	streams    int
+	loopWhy    string
+	inInit     bool
 }
 
 func NewEngine(p *Program) *Engine {
@@ -734,6 +742,11 @@ func (e *Engine) exec(st *State, fr *frame, b, pred *ssa.BasicBlock, idx, depth 
 				}
 				st2 := st.clone()
 				fr2 := fr.clone()
+				if c.Src == nil {
+					cc := *c
+					cc.Src = in.Cond
+					c = &cc
+				}
 				st.conds = append(st.conds, c)
 				st2.conds = append(st2.conds, c.Not())
 				st.learn(c)
@@ -1037,6 +1050,9 @@ func (e *Engine) evalValue(st *State, fr *frame, in ssa.Value) (Val, string) {
 			return &Ptr{Cell: x.Cell, Path: x.Path, SymIdx: idx, Elem: et}, ""
 		case *SliceVal:
 			off := x.Lo.Add(idx)
+			if e.TrackBounds && x.Len != nil {
+				st.addEvent(Event{Kind: "bounds", Fn: "index", Args: []Val{idx, x.Len}, Pos: in.Pos(), Instr: in, Conds: append([]*BoolVal(nil), st.conds...)})
+			}
 			if x.Arr != nil {
 				if c, ok := off.ConstInt(); ok {
 					return &Ptr{Cell: x.Arr.Cell, Path: append(append([]int(nil), x.Arr.Path...), int(c)), Elem: et}, ""
@@ -1190,6 +1206,9 @@ func (e *Engine) sliceOp(st *State, fr *frame, in *ssa.Slice) (Val, string) {
 		if hi == nil {
 			hi = x.Len
 		}
+		if e.TrackBounds && x.Len != nil && (in.Low != nil || in.High != nil) {
+			st.addEvent(Event{Kind: "bounds", Fn: "slice", Args: []Val{lo, hi, x.Len}, Pos: in.Pos(), Instr: in, Conds: append([]*BoolVal(nil), st.conds...)})
+		}
 		return &SliceVal{Arr: x.Arr, Base: x.Base, Lo: x.Lo.Add(lo), Len: hi.Sub(lo), Elem: x.Elem, Nil: x.Nil && in.Low == nil && in.High == nil}, ""
 	case *StrVal:
 		l, ok1 := lo.ConstInt()
@@ -1204,6 +1223,9 @@ func (e *Engine) sliceOp(st *State, fr *frame, in *ssa.Slice) (Val, string) {
 	case *Opaque:
 		if hi == nil {
 			hi = e.A.App("len", types.Typ[types.Int], x)
+		}
+		if e.TrackBounds && (in.Low != nil || in.High != nil) {
+			st.addEvent(Event{Kind: "bounds", Fn: "slice", Args: []Val{lo, hi, e.A.App("len", types.Typ[types.Int], x)}, Pos: in.Pos(), Instr: in, Conds: append([]*BoolVal(nil), st.conds...)})
 		}
 		var et types.Type
 		if s, ok := in.Type().Underlying().(*types.Slice); ok {
